@@ -458,3 +458,66 @@ example : toGuestV abiA exSbx (exVal 2147483648) exTy = none := by rfl
 example : leafRel abiA exTy = [0, 4, 8, 12, 16, 20] ∧ exTy.size abiA = 24 := by decide
 
 end Rlbox.C08
+
+namespace Rlbox.C08
+open Rlbox
+
+/-! ## The image at byte level: nothing outside the leaves' footprints is written -/
+
+theorem leafBytes_length (size : Nat) (v : SVal) : (leafBytes size v).length = size := by
+  cases v <;> simp [leafBytes]
+
+/-- a sequence of writes changes no byte outside the written extents -/
+theorem writeMany_frame (ws : List (Nat × List Nat)) : ∀ (m : Mem) (x : Nat),
+    (∀ w ∈ ws, x < w.1 ∨ w.1 + w.2.length ≤ x) → writeMany m ws x = m x := by
+  induction ws with
+  | nil => intro m x _; rfl
+  | cons w rest ih =>
+    intro m x h
+    obtain ⟨a, bs⟩ := w
+    simp only [writeMany]
+    rw [ih (m.write a bs) x (fun w' hw' => h w' (List.mem_cons_of_mem _ hw'))]
+    have := h (a, bs) List.mem_cons_self
+    simp only at this
+    exact write_frame m a bs x this
+
+/-- **Frame of a whole-struct store**: copying a struct image into sandbox memory writes exactly the
+footprints of its scalar leaves: every other byte -- padding inside the struct, and everything
+before and after it -- keeps its value, for every struct type, nesting and ABI. -/
+theorem C08_store_frame (abi : Abi) (t : CTy) (g : SVal) (base : Nat) (m : Mem) (x : Nat)
+    (hx : ∀ p ∈ (leafRel abi t).zip (leafSizes abi t), x < base + p.1 ∨ base + p.1 + p.2 ≤ x) :
+    writeMany m (imageWrites abi t g base) x = m x := by
+  apply writeMany_frame
+  intro w hw
+  simp only [imageWrites, List.mem_map] at hw
+  obtain ⟨⟨off, sz, v⟩, hmem, rfl⟩ := hw
+  have hin : (off, sz) ∈ (leafRel abi t).zip (leafSizes abi t) := by
+    -- (off, (sz, v)) ∈ zip A (zip B C)  →  (off, sz) ∈ zip A B
+    have key : ∀ (A B : List Nat) (C : List SVal) (o s : Nat) (c : SVal), (o, s, c) ∈ A.zip (B.zip C) → (o, s) ∈ A.zip B := by
+      intro A
+      induction A with
+      | nil => intro B C o s c h; simp at h
+      | cons a A ih =>
+        intro B C o s c h
+        cases B with
+        | nil => simp at h
+        | cons b B =>
+          cases C with
+          | nil => simp at h
+          | cons c' C =>
+            simp only [List.zip_cons_cons, List.mem_cons, Prod.mk.injEq] at h ⊢
+            rcases h with ⟨h1, h2, _⟩ | h
+            · exact Or.inl ⟨h1, h2⟩
+            · exact Or.inr (ih B C o s c h)
+    exact key _ _ _ off sz v hmem
+  have := hx (off, sz) hin
+  simp only [leafBytes_length]
+  exact this
+
+/-- non-vacuity: `struct { char c; long l; int* p; }` under ABI A at 0x100: bytes 0x101..0x103 are
+padding and keep their value; the leaves are written -/
+def exImg : Mem := writeMany (fun _ => 0xEE) (imageWrites abiA (.struct [.base .char, .base .long, .ptr]) (.struct [.int 120, .int 5, .ptr 4096]) 0x100)
+example : exImg 0x100 = 120 ∧ exImg 0x101 = 0xEE ∧ exImg 0x103 = 0xEE ∧ exImg 0x104 = 5 ∧ exImg 0x108 = 0 ∧ exImg 0x109 = 16 ∧
+    exImg 0x10c = 0xEE ∧ exImg 0xff = 0xEE := by decide
+
+end Rlbox.C08
